@@ -60,7 +60,7 @@ func (o Op) String() string {
 		if o.W == 0 {
 			return fmt.Sprintf("p%d u%d=Parse(%s)", o.P, o.D, q(string(o.A)))
 		}
-		return fmt.Sprintf("p%d u%d=ParseRef(%s,%q)", o.P, o.D, q(string(o.B)), q(string(o.A)))
+		return fmt.Sprintf("p%d u%d=ParseRef(%s,%s)", o.P, o.D, q(string(o.B)), q(string(o.A)))
 	case "resolve":
 		if o.V == "peerhref" {
 			return fmt.Sprintf("p%d u%d=resolve[way%d](u%d,<serialization of u%d>+%s)", o.P, o.D, o.W, o.H, o.S, q(string(o.A)))
@@ -76,7 +76,7 @@ func (o Op) String() string {
 		s += fmt.Sprintf(" d%d", o.D)
 	}
 	if o.A != "" || o.B != "" {
-		s += fmt.Sprintf(" (%s,%q)", q(string(o.A)), q(string(o.B)))
+		s += fmt.Sprintf(" (%s,%s)", q(string(o.A)), q(string(o.B)))
 	}
 	if o.W != 0 {
 		s += fmt.Sprintf(" w%d", o.W)
